@@ -427,10 +427,11 @@ func checkClone(c Case) (res vprop.Result) {
 		} else {
 			res.Label("target:Action-in-sequence")
 		}
-		res.Label(fmt.Sprintf("target-action-req:%s", [...]string{"value", "pointer", "nil"}[reqKindOf(orig.(*workflow.Action))]))
+		res.Label("target-action-req:" + reqKindNames[reqKindOf(orig.(*workflow.Action))])
 	case *workflow.Checks:
 		res.Label("target:Checks-" + groupNames[c.Target.Group])
 	}
+	labelNested(&res, orig, c.KeepState)
 	if perr != nil {
 		// "yields a copy": the inputs are plans as users build them / as storage returns them
 		res.Fail("C18/panic", "clone.%s(%s) panicked: %v", targetNames[c.Target.Kind], path, perr)
@@ -516,7 +517,7 @@ func checkClone(c Case) (res vprop.Result) {
 
 // countRequests feeds the evidence counters that say which request features the generator produced.
 func countRequests(acts []*workflow.Action) {
-	var total, val, ptr, null, ptrColl, timeColl, anyField, attempts int64
+	var total, val, ptr, null, nestVal, nestPtr, ptrColl, timeColl, anyField, attempts int64
 	for _, a := range acts {
 		total++
 		attempts += int64(len(a.Attempts))
@@ -528,6 +529,12 @@ func countRequests(acts []*workflow.Action) {
 		case *Req:
 			ptr++
 			r = v
+		case NReq:
+			nestVal++
+			continue
+		case *NReq:
+			nestPtr++
+			continue
 		default:
 			null++
 			continue
@@ -547,6 +554,8 @@ func countRequests(acts []*workflow.Action) {
 	vprop.Count("requests_value_typed", val)
 	vprop.Count("requests_pointer_typed", ptr)
 	vprop.Count("requests_nil", null)
+	vprop.Count("requests_nested_value_typed", nestVal)
+	vprop.Count("requests_nested_pointer_typed", nestPtr)
 	vprop.Count("requests_with_pointer_to_slice_or_map", ptrColl)
 	vprop.Count("requests_with_times_in_slice_or_map", timeColl)
 	vprop.Count("requests_with_any_field_set", anyField)
@@ -558,8 +567,81 @@ func reqKindOf(a *workflow.Action) int {
 		return reqValue
 	case *Req:
 		return reqPointer
+	case NReq:
+		return reqNestValue
+	case *NReq:
+		return reqNestPointer
 	}
 	return reqNil
+}
+
+// nestedRefs reports whether an NReq actually holds shareable memory below its top level (a non-nil map, a pointer, a
+// slice with capacity) — only then can a shallow copy be told from a deep one.
+func nestedRefs(r *NReq) bool {
+	sub := func(s *Sub) bool { return cap(s.Blob) > 0 || s.Tags != nil }
+	l := &r.Mid.Leaf
+	return sub(&r.Inner) || sub(&r.Pair[0]) || sub(&r.Pair[1]) ||
+		cap(l.Items) > 0 || l.Notes != nil || l.Ptr != nil || cap(l.Subs) > 0
+}
+
+// actionsUnder lists the actions of a clonable object (plan, block, sequence, checks group or action).
+func actionsUnder(obj any) []*workflow.Action {
+	switch o := obj.(type) {
+	case *workflow.Plan:
+		return actionsOf(o)
+	case *workflow.Block:
+		return actionsOf(&workflow.Plan{Blocks: []*workflow.Block{o}})
+	case *workflow.Sequence:
+		return o.Actions
+	case *workflow.Checks:
+		return o.Actions
+	case *workflow.Action:
+		return []*workflow.Action{o}
+	}
+	return nil
+}
+
+// labelNested classifies what the cloned subtree holds of the "references only in nested structs" request type.
+func labelNested(res *vprop.Result, orig any, keepState bool) {
+	var valReq, ptrReq, valResp, ptrResp bool
+	for _, a := range actionsUnder(orig) {
+		switch r := a.Req.(type) {
+		case NReq:
+			if nestedRefs(&r) {
+				valReq = true
+			}
+		case *NReq:
+			if nestedRefs(r) {
+				ptrReq = true
+			}
+		}
+		for _, att := range a.Attempts {
+			switch r := att.Resp.(type) {
+			case NResp:
+				n := NReq(r)
+				if nestedRefs(&n) {
+					valResp = true
+				}
+			case *NResp:
+				n := NReq(*r)
+				if nestedRefs(&n) {
+					ptrResp = true
+				}
+			}
+		}
+	}
+	if valReq {
+		res.Label("cloned:nested-value-req")
+	}
+	if ptrReq {
+		res.Label("cloned:nested-pointer-req")
+	}
+	if keepState && valResp {
+		res.Label("cloned:nested-value-resp-kept")
+	}
+	if keepState && ptrResp {
+		res.Label("cloned:nested-pointer-resp-kept")
+	}
 }
 
 // actionsOf lists every action of a plan.
